@@ -188,8 +188,33 @@ func c10Case(c *core.Ctx, blk c10Block, tr c10Transport, kp *fx.KeyPair, pt []by
 	keySuffix := fmt.Sprintf("%s/%s/%s", blk.name, trFamily(tr.name), cls)
 	replay := map[string]any{"case": desc, "plaintext_hex": fmt.Sprintf("%x", trunc(pt, 200)), "nonce_hex": fmt.Sprintf("%x", nonce)}
 
+	// direct keys: half of the cases draw a fresh key, the other half take one of a few long-lived key slices that every
+	// algorithm of that key length shares for the whole process (the same 24 bytes serve AES-192 and 3DES); the package
+	// gets the shared slice itself, the reference gets a copy, and the slice must still hold the key afterwards
 	directKey := make([]byte, refenc.KeySize(blk.ref))
 	c.Rng.Read(directKey)
+	var pooled []byte
+	if c.Rng.Intn(2) == 0 {
+		pooled = c10PoolKey(len(directKey), c.Rng.Intn(3))
+		directKey = pooled
+	}
+	pristine := append([]byte(nil), directKey...)
+	if tr.mk == nil {
+		// the same key bytes were just used with every other algorithm of that key length (AES-128-CBC / AES-128-GCM,
+		// AES-192 / 3DES): what a key was used for before must not matter
+		for _, ob := range c10Blocks {
+			if ob.name != blk.name && refenc.KeySize(ob.ref) == len(directKey) && !refenc.IsGCM(ob.ref) {
+				_, _, _, _ = core.Guard(func() { _, _ = ob.pkg.Encrypt(directKey, []byte("warm-up"), nil) })
+				c.Count("sibling_algorithm_used_with_same_key_first")
+			}
+		}
+	}
+	defer func() {
+		if !bytes.Equal(directKey, pristine) {
+			c.Violation("C10/key-material-modified/"+blk.name, fmt.Sprintf("the caller's key slice was modified by the package (%x -> %x) (%s)", trunc(pristine, 8), trunc(directKey, 8), desc), replay)
+			copy(directKey, pristine) // keep the pool usable for the rest of the run
+		}
+	}()
 	var decKey any = directKey
 	var pkgEncKey any = directKey
 	var enc xmlenc.Encrypter = blk.pkg
@@ -210,7 +235,7 @@ func c10Case(c *core.Ctx, blk c10Block, tr c10Transport, kp *fx.KeyPair, pt []by
 	}
 
 	// reference side first: tells us whether this (transport, key size) combination is feasible at all
-	refEl, _, refErr := refenc.Encrypt(blk.ref, tr.refAlg, tr.refDigest, cert, directKey, pt, c.Rng, true)
+	refEl, _, refErr := refenc.Encrypt(blk.ref, tr.refAlg, tr.refDigest, cert, pristine, pt, c.Rng, true)
 	if refErr != nil {
 		if strings.Contains(refErr.Error(), "message too long") {
 			c.Count("infeasible_key_too_small_for_digest")
@@ -300,7 +325,11 @@ func c10Case(c *core.Ctx, blk c10Block, tr c10Transport, kp *fx.KeyPair, pt []by
 	// (c) reference decrypts package ciphertext
 	c.Eval()
 	{
-		got, derr := refenc.Decrypt(decKey, el)
+		var refKey any = decKey
+		if tr.mk == nil {
+			refKey = pristine // the reference works on its own copy of the key
+		}
+		got, derr := refenc.Decrypt(refKey, el)
 		switch {
 		case derr != nil:
 			c.Violation("C10/ref-decrypts-pkg/"+keySuffix, fmt.Sprintf("reference cannot decrypt package ciphertext: %v", derr), replayP)
@@ -469,4 +498,23 @@ func trFamily(n string) string {
 		return n[:i]
 	}
 	return n
+}
+
+var c10KeyPool = map[string][]byte{}
+
+// c10PoolKey returns the i-th long-lived key slice of length n (same backing array on every call).
+func c10PoolKey(n, i int) []byte {
+	id := fmt.Sprintf("%d/%d", n, i)
+	if k, ok := c10KeyPool[id]; ok {
+		return k
+	}
+	k := make([]byte, n)
+	for j := range k {
+		k[j] = byte(17*i + 31*j + n)
+	}
+	if n == 24 { // keep 3DES happy about key parity-independent but distinct thirds
+		k[0], k[8], k[16] = byte(1+i), byte(101+i), byte(201+i)
+	}
+	c10KeyPool[id] = k
+	return k
 }
